@@ -11,8 +11,9 @@
 (***************************************************************************)
 EXTENDS Chain, Json
 
-VARIABLES l, sc
-tcvars == <<cvars, l, sc>>
+VARIABLES l, sc,
+          seen, allTips, cur
+tcvars == <<cvars, l, sc, seen, allTips, cur>>
 
 TraceLog == ndJsonDeserialize("conc_trace.ndjson")
 Ev == TraceLog[l]
@@ -45,12 +46,22 @@ FinalOK(e) ==
        IN /\ DOMAIN r = IdsOf(e.st)
           /\ \A i \in DOMAIN r : r[i].st = e.st[i + 1] /\ r[i].height = e.ht[i + 1] /\ r[i].cum = e.cum[i + 1]
 
-TScenario == Ev.ev = "scenario" /\ sc' = Ev
-TSnap     == Ev.ev = "snap" /\ SnapValid(Ev.st, Ev.ht, sc.par) /\ UNCHANGED sc
-TRead     == Ev.ev = "read" /\ SnapValid(Ev.st, Ev.ht, sc.par) /\ Ev.tip = TopOf(Ev.st, Ev.ht) /\ UNCHANGED sc
-TFinal    == Ev.ev = "final" /\ SnapValid(Ev.st, Ev.ht, Ev.par) /\ FinalOK(Ev) /\ UNCHANGED sc
+\* seen: per reader goroutine, the tips the table held at ANY logged moment since that reader's previous answer (its
+\* current service call cannot have started earlier); allTips: the same since the scenario began; cur: the latest one
+WinOf(g)  == (IF g \in DOMAIN seen THEN seen[g] ELSE allTips) \cup (IF cur >= 0 THEN {cur} ELSE {})
+Note(t)   == /\ cur' = t /\ allTips' = allTips \cup {t}
+             /\ seen' = [g \in DOMAIN seen |-> seen[g] \cup {t}]
+TScenario == Ev.ev = "scenario" /\ sc' = Ev /\ seen' = [g \in {} |-> {}] /\ allTips' = {} /\ cur' = -2
+TSnap     == Ev.ev = "snap" /\ SnapValid(Ev.st, Ev.ht, sc.par) /\ UNCHANGED sc /\ Note(TopOf(Ev.st, Ev.ht))
+TRead     == Ev.ev = "read" /\ SnapValid(Ev.st, Ev.ht, sc.par) /\ Ev.tip = TopOf(Ev.st, Ev.ht) /\ UNCHANGED sc /\ Note(Ev.tip)
+\* the tip a reader is ANSWERED is one the table held at some moment of that service call (linearisable reads): a read that
+\* begins after an Add has finished sees the new tip, never an answer remembered from an older state
+TReadRet  == Ev.ev = "readret" /\ Ev.tip \in WinOf(Ev.g) /\ UNCHANGED <<sc, cur, allTips>>
+             /\ seen' = [g \in DOMAIN seen \cup {Ev.g} |-> IF g = Ev.g THEN {} ELSE seen[g]]
+TFinal    == Ev.ev = "final" /\ SnapValid(Ev.st, Ev.ht, Ev.par) /\ FinalOK(Ev) /\ UNCHANGED <<sc, seen, cur, allTips>>
+             /\ Ev.svctip = TopOf(Ev.st, Ev.ht) /\ Ev.httptip = TopOf(Ev.st, Ev.ht)
 
-TraceNext == l <= Len(TraceLog) /\ l' = l + 1 /\ (TScenario \/ TSnap \/ TRead \/ TFinal) /\ UNCHANGED cvars
-TraceSpec == Init /\ l = 1 /\ sc = [ev |-> "none"] /\ [][TraceNext]_tcvars
+TraceNext == l <= Len(TraceLog) /\ l' = l + 1 /\ (TScenario \/ TSnap \/ TRead \/ TReadRet \/ TFinal) /\ UNCHANGED cvars
+TraceSpec == Init /\ l = 1 /\ sc = [ev |-> "none"] /\ seen = [g \in {} |-> {}] /\ allTips = {} /\ cur = -2 /\ [][TraceNext]_tcvars
 TraceAccepted == TLCGet("stats").diameter - 1 = Len(TraceLog)
 =============================================================================
